@@ -111,6 +111,7 @@ package main
 //@   allocates
 //@   requires config != nil && !isnil(camera)
 //@   ensures [C11] fresh(result) && result.writer == nil && !result.constantRecorder
+//@   ensures [C12] !result.open && result.next == 0
 //@   ensures [C11] result.outputDir == config.OutputDir && result.minDiskSpace == config.MinDiskSpace && result.camera == camera
 //@   ensures [C11] result.header.DeviceName == config.DeviceName && result.header.PreviewSecs == config.Recorder.PreviewSecs && result.header.MotionConfig == result.motionYAML
 //@   ensures [C11] result.header.Latitude == config.Location.Latitude && result.header.Longitude == config.Location.Longitude && result.header.LocTimestamp == config.Location.Timestamp && result.header.Altitude == config.Location.Altitude && result.header.Accuracy == config.Location.Accuracy
@@ -134,3 +135,37 @@ package main
 //@   call Remove#1 assert [C10] $0 == matches[rangeindex]
 //@   ensures [C10] ncalls("Glob") == 1 && ncalls("Join") == 1 && len(callarg("Join", 1, 0)) == 2 && callarg("Join", 1, 0)[0] == directory && callarg("Join", 1, 0)[1] == "*.cptv.temp*" && callarg("Glob", 1, 0) == callres("Join", 1)
 //@   check [C10] result == nil ==> ncalls("Remove") == len(matches) && matches == callres("Glob", 1).0
+
+// logConfig only writes the configuration to the process log.
+//@ func logConfig
+//@   mode trusted
+
+// handleConn: one camera connection. Input validity (what the camera daemon's header
+// and config.toml must satisfy for the pipeline's preconditions) is ASSUMED at the
+// two points where those inputs enter ("given_after"); everything else is checked.
+//@ func handleConn
+//@   mode permissive
+//@   requires conf != nil && !isnil(conn) && frameLogIntervalFirstMin >= 1 && frameLogInterval >= 1
+//@   call ReadHeaderInfo#1 assert [C14] ncalls("NewReader") == 1 && $0 == callres("NewReader", 1) && callarg("NewReader", 1, 0) == conn
+//@   call ReadHeaderInfo#1 given_after $result.1 == nil ==> $result.0 != nil && $result.0.fps >= 1 && $result.0.resX >= 0 && $result.0.resY >= 0 && $result.0.framesize >= 5
+//@   call ReadHeaderInfo#1 given_after $result.1 == nil ==> asiface("*headers.HeaderInfo", $result.0, "cptvframe.CameraSpec").FPS() == $result.0.fps && asiface("*headers.HeaderInfo", $result.0, "cptvframe.CameraSpec").ResX() == $result.0.resX && asiface("*headers.HeaderInfo", $result.0, "cptvframe.CameraSpec").ResY() == $result.0.resY
+//@   call LoadMotionConfig#1 assert [C11] $0 == conf && $1 == headerInfo.model
+//@   call LoadMotionConfig#1 given_after 0 <= conf.Recorder.MinSecs && conf.Recorder.MinSecs <= conf.Recorder.MaxSecs && conf.Recorder.PreviewSecs * headerInfo.fps + conf.Motion.TriggerFrames >= 1 && conf.Motion.FrameCompareGap >= 0 && conf.Motion.EdgePixels >= 0 && 2 * conf.Motion.EdgePixels <= headerInfo.resX && 2 * conf.Motion.EdgePixels <= headerInfo.resY && time.dsecs(conf.Throttler.BucketSize) >= 0.0
+//@   call frameParser#1 assert [C13,C11] $0 == headerInfo.brand && $1 == headerInfo.model
+//@   call NewCPTVFileRecorder#1 assert [C11] $0 == conf && ref($1) == headerInfo && $2 == headerInfo.brand && $3 == headerInfo.model && $4 == headerInfo.serial && $5 == headerInfo.firmware
+//@   call NewCPTVFileRecorder#2 assert [C11,C17] $0 == conf && ref($1) == headerInfo && $2 == headerInfo.brand && $3 == headerInfo.model && $4 == headerInfo.serial && $5 == headerInfo.firmware && conf.Recorder.ConstantRecorder
+//@   call NewCPTVFileRecorder#3 assert [C11,C17] $0 == conf && ref($1) == headerInfo && $2 == headerInfo.brand && $3 == headerInfo.model && $4 == headerInfo.serial && $5 == headerInfo.firmware
+//@   call SetAsConstantRecorder#1 assert [C17] $0 == siteres("NewCPTVFileRecorder", 2)
+//@   call NewThrottledRecorder#1 assert [C05,C11] conf.Throttler.Activate && ref($0) == siteres("NewCPTVFileRecorder", 1) && $1 == ref(conf.Throttler) && $2 == conf.Recorder.MinSecs + conf.Recorder.PreviewSecs && ref($4) == headerInfo
+//@   call NewMotionProcessor#1 assert [C05,C11] (conf.Throttler.Activate ==> sitehappened("NewThrottledRecorder", 1)) && (sitehappened("NewThrottledRecorder", 1) ==> conf.Throttler.Activate && ref($5) == siteres("NewThrottledRecorder", 1)) && (!conf.Throttler.Activate ==> ref($5) == siteres("NewCPTVFileRecorder", 1))
+//@   call NewMotionProcessor#1 assert [C11,C13] $0 == callres("frameParser", 1) && $0 != nil && $1 == ref(conf.Motion) && $2 == ref(conf.Recorder) && $3 == ref(conf.Location) && ref($6) == headerInfo
+//@   call NewMotionProcessor#1 assert [C17] (conf.Recorder.ConstantRecorder ==> sitehappened("NewCPTVFileRecorder", 2)) && (sitehappened("NewCPTVFileRecorder", 2) ==> conf.Recorder.ConstantRecorder && ref($7) == siteres("NewCPTVFileRecorder", 2)) && (!conf.Recorder.ConstantRecorder ==> ref($7) == 0) && ref($8) == siteres("NewCPTVFileRecorder", 3)
+//@   loop 1 invariant processor != nil && processor.PInv() && processor.parseFrame != nil && len(rawFrame) >= 5 && headerInfo != nil && headerInfo.fps >= 1 && frameLogIntervalFirstMin >= 1 && frameLogInterval >= 1 && reader != nil
+//@   loop 1 invariant [C14,C13] ncalls("ReadFull") == 2 * ncalls("Process") + ncalls("Reset")
+//@   call ReadFull#1 assert [C14] ref($0) == reader && arr($1) == arr(rawFrame) && off($1) == off(rawFrame) && len($1) == 5
+//@   call Reset#1 assert [C14] $0 == processor && message == "clear" && ref($1) == headerInfo
+//@   call ReadFull#2 assert [C14] ref($0) == reader && arr($1) == arr(rawFrame) && off($1) == off(rawFrame) + 5 && len($1) == len(rawFrame) - 5 && message != "clear"
+//@   call Process#1 assert [C14,C13] $0 == processor && $1 == rawFrame
+//@   check [C10] sitehappened("NewCPTVFileRecorder", 1) ==> ncalls("Stop") == 1 && callarg("Stop", 1, 0) == siteres("NewCPTVFileRecorder", 1)
+//@   check [C14] result != nil
+//@   check [C13,C14] sitehappened("NewMotionProcessor", 1) ==> ncalls("ReadFull") == 2 * ncalls("Process") + ncalls("Reset") + 1 || ncalls("ReadFull") == 2 * ncalls("Process") + ncalls("Reset") + 2
